@@ -75,6 +75,17 @@ pub struct Shared {
     pub eof_reads: usize,
 }
 
+/// the transient errors a socket read can report (never Interrupted: retrying that one is legitimate); a blocking socket
+/// with a read timeout reports WouldBlock / TimedOut
+fn transient_error(k: usize, is_async: bool) -> io::Error {
+    let kinds: &[io::ErrorKind] = if is_async {
+        &[io::ErrorKind::ConnectionReset, io::ErrorKind::TimedOut, io::ErrorKind::Other, io::ErrorKind::BrokenPipe]
+    } else {
+        &[io::ErrorKind::ConnectionReset, io::ErrorKind::WouldBlock, io::ErrorKind::TimedOut, io::ErrorKind::Other, io::ErrorKind::BrokenPipe]
+    };
+    io::Error::new(kinds[k % kinds.len()], "scripted transient error")
+}
+
 impl std::fmt::Debug for Pool {
     fn fmt(&self, f: &mut std::fmt::Formatter<'_>) -> std::fmt::Result {
         write!(f, "Pool({})", self.mode)
@@ -245,7 +256,7 @@ impl Shared {
             },
             "err" => {
                 self.i += 1;
-                Err(io::Error::new(io::ErrorKind::ConnectionReset, "scripted transient error"))
+                Err(transient_error(self.i, is_async))
             },
             "result" if st.s == "disconnected" => {
                 // end of stream: a connection that keeps reading instead of reporting it would spin for ever
@@ -415,7 +426,8 @@ impl Shared {
         }
         if self.rng.gen_bool(self.rcfg.p_err) {
             self.ev(json!({"ev": "TRead", "kind": "err", "offered": offered, "got": 0}));
-            return Err(io::Error::new(io::ErrorKind::ConnectionReset, "scripted transient error"));
+            let k = self.rng.gen_range(0..16usize);
+            return Err(transient_error(k, is_async));
         }
         if self.incoming.is_empty() {
             self.random_peer_activity();
